@@ -71,12 +71,16 @@ def one(entry, tier, shards):
                     base = json.load(open(os.path.join(os.path.dirname(patch), "meta.json"))).get("base_commit")
                 except Exception:  # noqa: BLE001
                     base = None
-                if base:
+                # without a recorded base: the newest earlier commit of /repo on which the change applies
+                candidates = [base] if base else subprocess.run(["git", "-C", "/repo", "log", "--format=%h", "-n", "30"], capture_output=True, text=True).stdout.split()[1:]
+                for base in candidates:
                     cleanup(d)
                     d = scratch(base)
                     repo = d + "/repo"
                     r = subprocess.run(["git", "-C", repo, "apply", patch], capture_output=True, text=True)
-                    out["applied_on"] = base
+                    if r.returncode == 0:
+                        out["applied_on"] = base
+                        break
             if r.returncode != 0:
                 out["status"] = "does_not_apply"
                 out["error"] = r.stderr[-300:]
